@@ -417,11 +417,13 @@ fn plan_inner(prop: &str, tier: &str) -> Option<Plan> {
                     let (mh, md) = if tier == "quick" { (4, 4) } else { (6, 6) };
                     jobs.push(job(prop, "drops", f, tier, json!({"n": 3, "init": s, "max_handles": mh, "max_edges": s.len() + if tier == "quick" { 0 } else { 1 }, "max_depth": md})));
                 }
+                // high-degree hubs (per-node thresholds): every degree 1..=40 / 1..=100
+                jobs.extend(sharded(prop, "drops", f, tier, json!({"large": if tier == "quick" { 40 } else { 100 }}), 4));
             }
             Some(Plan {
                 jobs,
                 level: "model_checking".into(),
-                rule: "BFS over (edge list, held handles) states from several initial shapes (no edge, chain, self-loop, 2-cycle, 3-cycle, mixed) of nodes with drop-counting values: operations clone a handle, create a container, insert / remove, connect, disconnect, isolate, keep an Edge from an iterator, keep a Path of a search or cycle search, keep a node found by a search, drop any single held handle, drop the container on another thread (sync flavours); after every step a value must be released iff no held handle (node, container slot, edge, path, search result) mentions its node, never twice, and nodes reached through held handles must be usable; at the end of every history all remaining handles are dropped and every value must have been released exactly once (no clone of a value leaked either). Operations that would walk over a released neighbour are outside the property and disabled by the model. evaluations = histories executed; nontrivial = transitions that drop something".into(),
+                rule: "BFS over (edge list, held handles) states from several initial shapes (no edge, chain, self-loop, 2-cycle, 3-cycle, mixed) of nodes with drop-counting values: operations clone a handle, create a container, insert / remove, connect, disconnect, isolate, keep an Edge from an iterator, keep a Path of a search or cycle search, keep a node found by a search, drop any single held handle, drop the container on another thread (sync flavours); after every step a value must be released iff no held handle (node, container slot, edge, path, search result) mentions its node, never twice, and nodes reached through held handles must be usable; at the end of every history all remaining handles are dropped and every value must have been released exactly once (no clone of a value leaked either). Operations that would walk over a released neighbour are outside the property and disabled by the model. Large family: the four hub graphs (hub-out, hub-in, mixed with self-loops, parallel; 4 nodes) with every degree 1..40 (quick) / 1..100 (thorough), unused or after look-ups and every search kind, with and without a container, node handles dropped in three orders: a value is released exactly when its last handle goes, all released exactly once at the end. evaluations = histories executed; nontrivial = transitions that drop something".into(),
                 bounds: json!({"quick": "2 nodes: <=4 handles, depth 5; 3 nodes: <=4 handles, depth 4", "thorough": "2 nodes: <=5 handles, depth 7; 3 nodes: <=6 handles, depth 6"}),
                 exhaustive: true,
                 assumptions: vec!["node values are released by Drop of the payload; the tracker distinguishes the original value from clones the library may make".into()],
